@@ -3,147 +3,9 @@
 use super::*;
 include!("/verif/harness/common.rs");
 
-// ---------------------------------------------------------------------------------------------------------
-// C15(a) UTF-8 carry-over of the provider byte stream is chunking-invariant.
-// push_bytes itself is async + reaches a tokio-locked sink (Kani ICE), so its body is sliced mechanically from the
-// current session.rs (see /verif/gen/slice_push_bytes.py; regenerated by vcheck before every run).
-// The recorder collects the text handed to the SSE decoder, byte for byte.
-// ---------------------------------------------------------------------------------------------------------
-pub struct PushRec {
-    acc: u128, // the text handed to the decoder, packed big-endian (at most 16 bytes: N <= 4 input bytes => <= 12)
-    len: usize,
-    overflow: bool,
-}
-impl PushRec {
-    fn new() -> Self {
-        PushRec { acc: 0, len: 0, overflow: false }
-    }
-    fn push_sse_str(&mut self, chunk: &str) -> bool {
-        let b = chunk.as_bytes();
-        let mut i = 0;
-        while i < b.len() {
-            if self.len < 16 {
-                self.acc = (self.acc << 8) | b[i] as u128;
-                self.len += 1;
-            } else {
-                self.overflow = true;
-            }
-            i += 1;
-        }
-        false
-    }
-}
-// The carry-over buffer: the product passes a Vec<u8>. A heap Vec with symbolic contents makes remove/drain
-// (memmove of symbolic size) and the repeated re-validation too expensive for CBMC (measured: N=2 > 400 s), so the
-// slice runs on a fixed-capacity array buffer offering exactly the Vec operations push_bytes uses
-// (extend_from_slice, clear, remove, drain(..n), len, deref to [u8]). Vec<u8> itself is trusted.
-pub struct PushBuf {
-    b: [u8; 8],
-    n: usize,
-}
-impl PushBuf {
-    fn new() -> Self {
-        PushBuf { b: [0u8; 8], n: 0 }
-    }
-    fn extend_from_slice(&mut self, s: &[u8]) {
-        let mut i = 0;
-        while i < s.len() {
-            self.b[self.n] = s[i];
-            self.n += 1;
-            i += 1;
-        }
-    }
-    fn clear(&mut self) {
-        self.n = 0;
-    }
-    fn len(&self) -> usize {
-        self.n
-    }
-    fn remove(&mut self, idx: usize) -> u8 {
-        assert!(idx < self.n);
-        let v = self.b[idx];
-        let mut i = idx;
-        while i + 1 < self.n {
-            self.b[i] = self.b[i + 1];
-            i += 1;
-        }
-        self.n -= 1;
-        v
-    }
-    fn drain(&mut self, r: core::ops::RangeTo<usize>) {
-        assert!(r.end <= self.n);
-        let k = r.end;
-        let mut i = 0;
-        while i + k < self.n {
-            self.b[i] = self.b[i + k];
-            i += 1;
-        }
-        self.n -= k;
-    }
-}
-impl core::ops::Deref for PushBuf {
-    type Target = [u8];
-    fn deref(&self) -> &[u8] {
-        &self.b[..self.n]
-    }
-}
-include!("/verif/harness/gen/push_bytes_slice.rs");
-
-fn same_output(a: &PushRec, b: &PushRec) -> bool {
-    a.len == b.len && a.acc == b.acc
-}
-
-// ---- reference UTF-8 validator -------------------------------------------------------------------------------
-// core::str::from_utf8 (run_utf8_validation: word-at-a-time fast path, three nested loops) is what made the slice
-// harness unaffordable once the buffer length is symbolic. It is replaced by a byte-wise reference validator with the
-// SAME contract (valid_up_to, error_len per the "maximal subpart" rule). Two separate harnesses justify the stub:
-// c15_utf8_ref_layout (the Utf8Error value built by transmute reports the numbers put in) and c15_utf8_ref_equiv_len{1..4}
-// (reference == std on EVERY byte string of length 1..4, i.e. every complete and truncated form of every sequence).
-// (the validator, the Utf8Error constructor and the equivalence macro live in /verif/harness/common.rs: C17 uses them too)
-#[kani::proof]
-fn c15_utf8_ref_layout() {
-    utf8_ref_layout_body();
-}
-
-utf8_ref_equiv!(c15_utf8_ref_equiv_len2, 2);
-utf8_ref_equiv!(c15_utf8_ref_equiv_len3, 3);
-utf8_ref_equiv!(c15_utf8_ref_equiv_len4, 4);
-
-// MEASURED: with std's from_utf8 even N = 2 did not finish in 400 s; with the reference validator stubbed in:
-// N = 2: ~290 s, N = 3: ~330 s, N = 4: ~520 s per split position. N = 4, split after the first byte, FOUND
-// F-C15-utf8-chunking on the pinned tree (fixed in 0272cb1).
-// 2-safety: the same N arbitrary bytes (valid, invalid or truncated UTF-8) delivered whole vs. split after K bytes
-// hand the same text to the decoder and leave the same pending tail.
-macro_rules! c15_utf8_split {
-    ($name:ident, $n:expr, $k:expr, $unwind:expr) => {
-        #[kani::proof]
-        #[kani::unwind($unwind)]
-        #[kani::stub(std::fmt::format, stub_fmt_format)]
-        #[kani::stub(std::str::from_utf8, stub_from_utf8)]
-        fn $name() {
-            let bytes: [u8; $n] = kani::any();
-            let mut rec_whole = PushRec::new();
-            let mut buf_whole = PushBuf::new();
-            push_bytes_slice(&mut rec_whole, &mut buf_whole, &bytes);
-
-            let mut rec_split = PushRec::new();
-            let mut buf_split = PushBuf::new();
-            push_bytes_slice(&mut rec_split, &mut buf_split, &bytes[..$k]);
-            push_bytes_slice(&mut rec_split, &mut buf_split, &bytes[$k..]);
-
-            kani::cover!(rec_whole.len > $n, "some invalid byte was replaced (output longer than input)");
-            kani::cover!(buf_whole.len() > 0, "an incomplete sequence stays pending");
-            assert!(!rec_whole.overflow && !rec_split.overflow);
-            assert!(same_output(&rec_whole, &rec_split), "decoded text depends on where the network split the bytes");
-            assert!(buf_whole.len() == buf_split.len(), "pending UTF-8 tail depends on where the network split the bytes");
-        }
-    };
-}
-c15_utf8_split!(c15_utf8_n2_k1, 2, 1, 8);
-c15_utf8_split!(c15t_utf8_n3_k1, 3, 1, 8);
-c15_utf8_split!(c15t_utf8_n3_k2, 3, 2, 8);
-c15_utf8_split!(c15t_utf8_n4_k1, 4, 1, 9);
-c15_utf8_split!(c15t_utf8_n4_k2, 4, 2, 9);
-c15_utf8_split!(c15t_utf8_n4_k3, 4, 3, 9);
-
-include!("/verif/harness/ripd/session_c06.rs");
+// Slice-based harness families are selected per property at compile time (vcheck sets VERIF_SLICE_<id> to the family's
+// file for the property being checked and to /verif/harness/empty.rs otherwise): a generated slice that no longer
+// compiles after a source change makes only ITS property inconclusive, not every property checked in this crate.
+include!(env!("VERIF_SLICE_C15"));
+include!(env!("VERIF_SLICE_C06"));
+include!(env!("VERIF_SLICE_C11"));
